@@ -40,7 +40,7 @@ func algOf(name string) algDesc {
 		return algTable[0]
 	}
 	for _, a := range algTable {
-		if a.name == name {
+		if strings.EqualFold(a.name, name) { // a name of the DNS: case does not distinguish algorithms
 			return a
 		}
 	}
@@ -212,11 +212,16 @@ func rawSecret(b64 string) []byte {
 	return s
 }
 
-// refSign appends a TSIG record to a packed message (ARCOUNT + 1)
+// refSign appends a TSIG record to a packed message (ARCOUNT + 1).  key and alg
+// go on the wire as they are spelled (alg "" = hmac-sha256.); what is hashed is
+// their canonical form: lower case, uncompressed (RFC 8945 4.3.3, refDigest).
 func refSign(packed []byte, key, alg, secretB64 string, ts uint64, fudge uint16, prevHex string, timers bool) ([]byte, string) {
 	a := algOf(alg)
+	if alg == "" {
+		alg = a.name
+	}
 	prev, _ := hex.DecodeString(prevHex)
-	p := tsigParts{name: nameWire(key), class: dns.ClassANY, alg: nameWire(a.name), time: ts, fudge: fudge,
+	p := tsigParts{name: nameWire(key), class: dns.ClassANY, alg: nameWire(alg), time: ts, fudge: fudge,
 		origid: binary.BigEndian.Uint16(packed)}
 	h := hmac.New(a.h, rawSecret(secretB64))
 	h.Write(refDigest(packed, p, prev, timers))
